@@ -124,9 +124,69 @@ def finding_probes():
             F.utils.generate_one(schema3)
         except RecursionError:
             fails += 1
+    amb = {"type": "record", "name": "R0", "fields": [{"name": "f0", "type": [
+        {"type": "record", "name": "R2", "fields": [{"name": "f0", "type": {"type": "long", "logicalType": "timestamp-millis"}}]},
+        {"type": "map", "values": {"type": "long", "logicalType": "time-micros"}}]}]}
+    bad = 0
+    for sd in range(40):
+        random.seed(sd)
+        v = F.utils.generate_one(amb)
+        fo = io.BytesIO()
+        try:
+            F.schemaless_writer(fo, amb, v)
+            fo.seek(0)
+            F.schemaless_reader(fo, amb)
+        except Exception:  # noqa
+            bad += 1
+    out.append((AMBIG_SIG, bad > 0,
+                "a dict generated for a record branch is written under a later map branch whose logical type cannot read the number back"))
     out.append(("generate:RecursionError:three-optional-self-references", fails > 0,
                 "generate_one on a record with three ['null', N] fields overflows the stack for most random states"))
     return out
+
+
+def _has_logical(n, depth=0, seen=()):
+    n = refavro.deref(n)
+    if n.logical:
+        return True
+    if depth > 6:
+        return False
+    if n.k == "array":
+        return _has_logical(n.items, depth + 1, seen)
+    if n.k == "map":
+        return _has_logical(n.values, depth + 1, seen)
+    if n.k == "union":
+        return any(_has_logical(b, depth + 1, seen) for b in n.branches)
+    if n.k == "record":
+        if n.name in seen:
+            return False
+        return any(_has_logical(f.type, depth + 1, seen + (n.name,)) for f in n.fields)
+    return False
+
+
+def ambiguous_logical(n, v, depth=0):
+    """Is there a union on the path of value v at which v conforms to two or more branches,
+    at least one of which carries a logical type?  (The generated value belongs to ONE
+    branch; the writer may legitimately pick another one it also conforms to, and that
+    branch's logical type may not accept the raw number on read: known finding.)"""
+    n = refavro.deref(n)
+    if depth > 8:
+        return False
+    if n.k == "union":
+        conf = [b for b in n.branches if refavro.conforms(b, v)]
+        if len(conf) >= 2 and any(_has_logical(b) for b in conf):
+            return True
+        return any(ambiguous_logical(b, v, depth + 1) for b in conf)
+    if n.k == "record" and isinstance(v, dict):
+        return any(ambiguous_logical(f.type, v[f.name], depth + 1) for f in n.fields if f.name in v)
+    if n.k == "array" and isinstance(v, (list, tuple)):
+        return any(ambiguous_logical(n.items, x, depth + 1) for x in v)
+    if n.k == "map" and isinstance(v, dict):
+        return any(ambiguous_logical(n.values, x, depth + 1) for x in v.values())
+    return False
+
+
+AMBIG_SIG = "generate:union-branch-ambiguity-with-logical-type"
 
 
 def run_one(ch, ctx):
@@ -194,7 +254,8 @@ def run_one(ch, ctx):
         try:
             F.schemaless_reader(fo, S)
         except Exception as e:  # noqa
-            raise Violation("readback", "schemaless-read-raises", detail={"index": i, "value": jsonable(v), "exc": jsonable(e)}, scenario=desc)
+            sig = AMBIG_SIG if isinstance(e, (ValueError, OverflowError)) and ambiguous_logical(node, v) else None
+            raise Violation("readback", "schemaless-read-raises", detail={"index": i, "value": jsonable(v), "exc": jsonable(e)}, sig=sig, scenario=desc)
         if fo.read(1) != b"":
             raise Violation("readback", "bytes-left", detail={"index": i}, scenario=desc)
     fo = io.BytesIO()
@@ -206,7 +267,8 @@ def run_one(ch, ctx):
     try:
         back = list(F.reader(fo))
     except Exception as e:  # noqa
-        raise Violation("readback", "container-read-raises", detail={"exc": jsonable(e), "values": jsonable(values[:3])}, scenario=desc)
+        sig = AMBIG_SIG if isinstance(e, (ValueError, OverflowError)) and any(ambiguous_logical(node, v) for v in values) else None
+        raise Violation("readback", "container-read-raises", detail={"exc": jsonable(e), "values": jsonable(values[:3])}, sig=sig, scenario=desc)
     if len(back) != len(values):
         raise Violation("readback", "container-count-differs", detail={"read": len(back), "written": len(values)}, scenario=desc)
     ctx.steps += max(1, len(values))
